@@ -99,7 +99,7 @@ Vlayout == { x \in SimpleFor : x.toks[1].t \in LayoutTexts } \cup { WithU(One, M
                            Coll2("seq", Coll2("seq", One, Two), Coll1("seq", Two)) } : Dialect \in c.ds }
 R15 == V1(S("1.50"), N("real", S("1.50"), <<>>), All, TRUE)
 Rexp == V1(S("-1.5e+5"), N("real", S("-1.5e+5"), <<>>), All, TRUE)
-Vhooks == Reals \cup { One, Wa, WithU(R15, M), WithU(One, M), Coll2("seq", R15, One), Coll2("seq", WithU(R15, M), Rexp),
+Vhooks == Reals \cup Ints \cup { One, Wa, Coll2("seq", V1(S("+1"), IntN(10, S("+1")), All, TRUE), R15), WithU(V1(S("+1"), IntN(10, S("+1")), All, TRUE), M), WithU(R15, M), WithU(One, M), Coll2("seq", R15, One), Coll2("seq", WithU(R15, M), Rexp),
                        Coll2("seq", Coll2("seq", R15, One), Coll1("seq", Rexp)), Coll2("set", R15, Wa) }
           \cup (IF Dialect \in OdlFam THEN {} ELSE { Coll2("set", One, Coll1("set", R15)), WithU(Coll2("seq", R15, Two), M), WithU(Wa, M) })
 Vuse == IF Profile = "layout" THEN Vlayout ELSE IF Profile = "hooks" THEN Vhooks ELSE Vfull
